@@ -93,12 +93,17 @@ class _Meta:
     def __repr__(self):
         return "Meta(...)"
 
+    def __and__(self, other):
+        return self
+
+    __rand__ = __and__
+
 
 def _real_ns():
     return {
         "__builtins__": {}, "int": int, "str": str, "list": list, "dict": dict, "tuple": tuple, "set": set, "Pattern": re.Pattern,
         "typing": typing, "Literal": typing.Literal, "Annotated": typing.Annotated, "Callable": typing.Callable,
-        "x": types.SimpleNamespace(Seq=collections.abc.Sequence), "a": types.SimpleNamespace(b=_B), "Meta": _Meta,
+        "x": types.SimpleNamespace(Seq=collections.abc.Sequence), "a": types.SimpleNamespace(b=_B), "Meta": _Meta, "tag": _Meta(),
     }
 
 
